@@ -8,6 +8,7 @@ use crate::verif_spec::*;
 use crate::verif_machine::*;
 use crate::verif_tables::*;
 use crate::model::DelimiterTag;
+use crate::attribute::{IppAttribute, IppAttributeGroup};
 
 verus! {
 
@@ -468,52 +469,88 @@ pub proof fn lemma_value(name: Seq<char>, a: AVal, in_coll: bool, rest: Seq<u8>,
             assert(spec_attr_enc(name, a) == set_prefix(name, elems, elems.len()));
         }
         AVal::Coll { members } => {
-            reveal(m_value);
-            reveal(m_value_legal);
-            reveal(m_flush);
-            let n = members.len();
-            let nb = utf8(name);
-            axiom_lossy_utf8(name);
-            axiom_utf8_empty();
-            axiom_str_of(name);
-            let e = Seq::<u8>::empty();
-            // begCollection token
-            let end_tok = s1(T_ENDCOLLECTION) + enc16(0) + enc16(0);
-            let after_beg = members_enc(members, n) + (end_tok + rest);
-            assert(spec_attr_enc(name, a) + rest =~= token_r(T_BEGCOLLECTION, nb, e, after_beg));
-            lemma_token(T_BEGCOLLECTION, nb, e, after_beg, s);
-            let nm = str_of(lossy(nb));
-            let sa = start_attr(s, name);
-            let sb = m_value(s, T_BEGCOLLECTION, nm, e);
-            assert(nm@ == name);
-            assert(sa.stack.len() >= 1);
-            assert(sa.name is Some);
-            assert(sb == MState { groups: sa.groups, cur: sa.cur, name: sa.name, stack: sa.stack.push(Seq::<AVal>::empty()) });
-            // the members
-            lemma_members(members, n, end_tok + rest, sb);
-            let sm = push_top(sb, member_vals(members, n));
-            // endCollection token
-            assert(end_tok + rest =~= token_r(T_ENDCOLLECTION, e, e, rest));
-            assert(enc16(e.len() as u16) == enc16(0));
-            let en = str_of(lossy(e));
-            axiom_str_of(lossy(e));
-            assert(en@.len() == 0);
-            assert(sm.stack.len() == sa.stack.len() + 1);
-            lemma_token(T_ENDCOLLECTION, e, e, rest, sm);
-            lemma_pair_map_members(members);
-            let se = m_value(sm, T_ENDCOLLECTION, en, e);
-            let want = push_top(sa, seq![a]);
-            assert(sm.stack.last() =~= member_vals(members, n));
-            assert(sm.stack.drop_last() =~= sa.stack);
-            assert(sa.stack.last().push(a) =~= sa.stack.last() + seq![a]);
-            assert(se.stack =~~= want.stack);
-            assert(se == want);
+            lemma_coll(name, members, rest, s);
         }
         _ => {
             lemma_scalar_tag(a);
             lemma_value_scalar(name, a, rest, s);
         }
     }
+}
+
+/// effect of a legal begCollection token
+pub proof fn lemma_m_value_beg(s: MState, nm: String, name: Seq<char>)
+    requires state_ok(s, name), nm@ == name, nm == str_of(name),
+    ensures
+        m_value_legal(s, T_BEGCOLLECTION, nm, Seq::<u8>::empty()),
+        m_value(s, T_BEGCOLLECTION, nm, Seq::<u8>::empty()) == (MState {
+            groups: start_attr(s, name).groups, cur: start_attr(s, name).cur, name: start_attr(s, name).name,
+            stack: start_attr(s, name).stack.push(Seq::<AVal>::empty()) }),
+        start_attr(s, name).stack.len() >= 1,
+        start_attr(s, name).name is Some,
+{
+    reveal(m_value);
+    reveal(m_value_legal);
+    reveal(m_flush);
+}
+
+/// effect of a legal endCollection token
+pub proof fn lemma_m_value_end(sm: MState, en: String)
+    requires sm.stack.len() >= 2, en@.len() == 0, sm.name is Some,
+    ensures
+        m_value_legal(sm, T_ENDCOLLECTION, en, Seq::<u8>::empty()),
+        m_value(sm, T_ENDCOLLECTION, en, Seq::<u8>::empty()) == (MState {
+            groups: sm.groups, cur: sm.cur, name: sm.name,
+            stack: sm.stack.drop_last().update(sm.stack.len() - 2,
+                sm.stack[sm.stack.len() - 2].push(coll_of(pair_map(sm.stack.last())))) }),
+{
+    reveal(m_value);
+    reveal(m_value_legal);
+}
+
+/// a collection value: begCollection, the members, endCollection
+pub proof fn lemma_coll(name: Seq<char>, members: Seq<(String, AVal)>, rest: Seq<u8>, s: MState)
+    requires
+        state_ok(s, name),
+        (AVal::Coll { members }) == coll_of(members_map(members, members.len())),
+        forall|i: int| 0 <= i < members.len() ==> utf8((#[trigger] members[i]).0@).len() <= 0xffff && dom_ok(members[i].1, true),
+    ensures
+        m_run(spec_attr_enc(name, (AVal::Coll { members })) + rest, s)
+            == m_run(rest, push_top(start_attr(s, name), seq![(AVal::Coll { members })])),
+    decreases members, members.len() + 1,
+{
+    let a = AVal::Coll { members };
+    let n = members.len();
+    let nb = utf8(name);
+    axiom_lossy_utf8(name);
+    axiom_utf8_empty();
+    axiom_str_of(name);
+    let e = Seq::<u8>::empty();
+    let end_tok = s1(T_ENDCOLLECTION) + enc16(0) + enc16(0);
+    let after_beg = members_enc(members, n) + (end_tok + rest);
+    assert(spec_attr_enc(name, a) + rest =~= token_r(T_BEGCOLLECTION, nb, e, after_beg));
+    let nm = str_of(lossy(nb));
+    assert(nm@ == name);
+    lemma_m_value_beg(s, nm, name);
+    lemma_token(T_BEGCOLLECTION, nb, e, after_beg, s);
+    let sa = start_attr(s, name);
+    let sb = m_value(s, T_BEGCOLLECTION, nm, e);
+    lemma_members(members, n, end_tok + rest, sb);
+    let sm = push_top(sb, member_vals(members, n));
+    assert(end_tok + rest =~= token_r(T_ENDCOLLECTION, e, e, rest));
+    let en = str_of(lossy(e));
+    axiom_str_of(lossy(e));
+    assert(sm.stack.len() == sa.stack.len() + 1);
+    lemma_m_value_end(sm, en);
+    lemma_token(T_ENDCOLLECTION, e, e, rest, sm);
+    lemma_pair_map_members(members);
+    let se = m_value(sm, T_ENDCOLLECTION, en, e);
+    let want = push_top(sa, seq![a]);
+    assert(sm.stack.last() =~= member_vals(members, n));
+    assert(sm.stack.drop_last() =~= sa.stack);
+    assert(sa.stack.last().push(a) =~= sa.stack.last() + seq![a]);
+    assert(se.stack =~~= want.stack);
+    assert(se == want);
 }
 
 pub proof fn lemma_set(name: Seq<char>, elems: Seq<AVal>, in_coll: bool, k: nat, rest: Seq<u8>, s: MState)
@@ -576,6 +613,143 @@ pub proof fn lemma_members(members: Seq<(String, AVal)>, k: nat, rest: Seq<u8>, 
         lemma_value(none, v, true, rest, s1_);
         lemma_push_push(s, member_vals(members, (k - 1) as nat), seq![nmv]);
         lemma_push_push(s, member_vals(members, (k - 1) as nat) + seq![nmv], vals_of(v));
+    }
+}
+
+
+// ------------------------------------------------------------------ attributes, groups, message (L4)
+
+/// C01's domain for one attribute map: filed under its own non-empty name, name and value within the wire limits,
+/// value in the value domain
+pub open spec fn attrs_dom(m: Map<String, IppAttribute>) -> bool {
+    forall|k: String| #[trigger] m.contains_key(k) ==> m[k].sname() == k@ && k@.len() > 0 && utf8(k@).len() <= 0xffff
+        && dom_ok(aval(m[k].sval()), false)
+}
+
+/// state after reading the attributes with keys `ks[0..n)` (the last one still open)
+pub open spec fn attrs_state(s: MState, m: Map<String, IppAttribute>, ks: Seq<String>, n: nat) -> MState
+    decreases n
+{
+    if n == 0 || n > ks.len() {
+        s
+    } else {
+        push_top(start_attr(attrs_state(s, m, ks, (n - 1) as nat), m[ks[n - 1]].sname()), vals_of(aval(m[ks[n - 1]].sval())))
+    }
+}
+
+/// name -> value for the keys `ks[0..n)`
+pub open spec fn abs_prefix(m: Map<String, IppAttribute>, ks: Seq<String>, n: nat) -> Map<String, AVal>
+    decreases n
+{
+    if n == 0 || n > ks.len() {
+        Map::<String, AVal>::empty()
+    } else {
+        abs_prefix(m, ks, (n - 1) as nat).insert(ks[n - 1], aval(m[ks[n - 1]].sval()))
+    }
+}
+
+/// shape of the state while the attributes of one group are being read
+pub open spec fn group_state(s: MState, tag: DelimiterTag, base: Map<String, AVal>, m: Map<String, IppAttribute>, ks: Seq<String>, n: nat) -> bool {
+    &&& s.stack.len() == 1
+    &&& if n == 0 {
+            s.name is None && s.stack[0].len() == 0 && s.cur == Some((tag, base))
+        } else {
+            s.name == Some(ks[n - 1]) && s.stack[0] == vals_of(aval(m[ks[n - 1]].sval()))
+                && s.cur == Some((tag, base.union_prefer_right(abs_prefix(m, ks, (n - 1) as nat))))
+        }
+}
+
+pub proof fn lemma_in_domain_lov(a: AVal)
+    requires dom_ok(a, false),
+    ensures lov(vals_of(a)) == a, vals_of(a).len() >= 1,
+{
+}
+
+/// the attributes of a group, one after the other
+pub proof fn lemma_attrs(m: Map<String, IppAttribute>, ks: Seq<String>, n: nat, rest: Seq<u8>, s: MState, tag: DelimiterTag)
+    requires
+        n <= ks.len(), attrs_dom(m),
+        forall|i: int| 0 <= i < ks.len() ==> m.contains_key(#[trigger] ks[i]),
+        group_state(s, tag, Map::<String, AVal>::empty(), m, ks, 0),
+    ensures
+        m_run(keys_enc(m, ks, n) + rest, s) == m_run(rest, attrs_state(s, m, ks, n)),
+        group_state(attrs_state(s, m, ks, n), tag, Map::<String, AVal>::empty(), m, ks, n),
+        attrs_state(s, m, ks, n).groups == s.groups,
+    decreases n,
+{
+    reveal(m_flush);
+    let base = Map::<String, AVal>::empty();
+    if n == 0 {
+        assert(keys_enc(m, ks, 0) + rest =~= rest);
+    } else {
+        let k = ks[n - 1];
+        let a = aval(m[k].sval());
+        let name = m[k].sname();
+        assert(m.contains_key(k));
+        let t = spec_attr_enc(name, a);
+        assert(keys_enc(m, ks, n) + rest =~= keys_enc(m, ks, (n - 1) as nat) + (t + rest));
+        lemma_attrs(m, ks, (n - 1) as nat, t + rest, s, tag);
+        let sp = attrs_state(s, m, ks, (n - 1) as nat);
+        lemma_value(name, a, false, rest, sp);
+        let sa = start_attr(sp, name);
+        lemma_str_of_view(k);
+        assert(str_of(name) == k);
+        let sn = push_top(sa, vals_of(a));
+        assert(sa.stack.len() == 1 && sa.stack[0] =~= Seq::<AVal>::empty());
+        assert(sn.stack[0] =~= vals_of(a));
+        if n - 1 > 0 {
+            let kp = ks[n - 2];
+            let ap = aval(m[kp].sval());
+            assert(m.contains_key(kp));
+            lemma_in_domain_lov(ap);
+            assert(base.union_prefer_right(abs_prefix(m, ks, (n - 2) as nat)).insert(kp, ap)
+                =~= base.union_prefer_right(abs_prefix(m, ks, (n - 1) as nat)));
+        } else {
+            assert(base.union_prefer_right(abs_prefix(m, ks, 0)) =~= base);
+        }
+    }
+}
+
+/// with every key listed exactly once the prefix map is the abstraction of the whole group
+pub proof fn lemma_abs_prefix_all(m: Map<String, IppAttribute>, ks: Seq<String>)
+    requires key_perm(ks, m),
+    ensures abs_prefix(m, ks, ks.len()) == Map::new(m.dom(), |k: String| aval(m[k].sval())),
+{
+    lemma_abs_prefix_dom(m, ks, ks.len());
+    let p = abs_prefix(m, ks, ks.len());
+    let w = Map::new(m.dom(), |k: String| aval(m[k].sval()));
+    assert forall|k: String| p.dom().contains(k) <==> w.dom().contains(k) by {
+        if m.dom().contains(k) {
+            assert(ks.to_set().contains(k));
+        }
+    }
+    assert(p =~= w);
+}
+
+pub proof fn lemma_abs_prefix_dom(m: Map<String, IppAttribute>, ks: Seq<String>, n: nat)
+    requires n <= ks.len(),
+    ensures
+        forall|k: String| abs_prefix(m, ks, n).contains_key(k) <==> exists|i: int| 0 <= i < n && ks[i] == k,
+        forall|k: String| #[trigger] abs_prefix(m, ks, n).contains_key(k) ==> abs_prefix(m, ks, n)[k] == aval(m[k].sval()),
+    decreases n,
+{
+    if n > 0 {
+        lemma_abs_prefix_dom(m, ks, (n - 1) as nat);
+        let p = abs_prefix(m, ks, (n - 1) as nat);
+        assert forall|k: String| abs_prefix(m, ks, n).contains_key(k) implies exists|i: int| 0 <= i < n && ks[i] == k by {
+            if k == ks[n - 1] {
+            } else {
+                assert(p.contains_key(k));
+                let i = choose|i: int| 0 <= i < n - 1 && ks[i] == k;
+                assert(ks[i] == k);
+            }
+        }
+        assert forall|k: String| (exists|i: int| 0 <= i < n && ks[i] == k) implies abs_prefix(m, ks, n).contains_key(k) by {
+            let i = choose|i: int| 0 <= i < n && ks[i] == k;
+            if i < n - 1 {
+                assert(p.contains_key(k));
+            }
+        }
     }
 }
 
